@@ -51,7 +51,9 @@ def parse(text):
             raise ReportError("line without 'label : value': %r" % ln[:80])
         key = LABEL2KEY.get(label.strip().lower())
         if key is None:
-            raise ReportError("unknown label %r" % label.strip())
+            # a line the property does not speak about (a version stamp, a new diagnostic): kept, not judged
+            cur.setdefault("_extra", []).append((label.strip(), value))
+            continue
         if key in cur:
             raise ReportError("label %r twice in one block" % label.strip())
         cur["_lines"].append(key)
